@@ -2,7 +2,7 @@
    Statements only.  Model: Model/PipelineModel.v with throwing stages / a throwing generator, TaskSetBase::trySetCurrentException
    (compare-exchange, then the cancel store), hasException() checks, the discard path of wait() (cleanupNotRun), the RAII guards,
    the cancelled check of packageTask.  Any number of stages / items / threads, every interleaving.
-   The property as stated was FALSE of the code in three ways; two are repaired in /repo (1a07319 hang, f2764c3 escape: their
+   The property as stated was FALSE of the code in three ways; two are repaired in /repo (0db1b9f hang, eb2d079 escape: their
    witnesses are kept as regression Examples), the leak remains (C29_refuted, replayed on the real code by props/C29.py);
    the parts that do hold are proved for all schedules.
    Tie: lockstep under harness/vsched.h on the real dispenso::pipeline with lifetime-tracked payloads (props/C29.py). *)
@@ -30,7 +30,7 @@ Theorem C29_refuted :
 Proof. exact leak_refuted. Qed.
 Print Assumptions C29_refuted.
 
-(* ---------- REPAIRED in /repo 1a07319 (was: FALSE, pipeline() never returns).  Two generator instances; the second one is still
+(* ---------- REPAIRED in /repo 0db1b9f (was: FALSE, pipeline() never returns).  Two generator instances; the second one is still
    queued when a stage throws and is skipped by the cancelled wrapper.  Its CompletionGuard, now owned by the task by value, counts
    the latch down when the skipped functor is destroyed.  Regression: the former witness run returns, rethrowing 1000. ---------- *)
 Example C29_hang_regression :
@@ -45,7 +45,7 @@ Theorem C29_completion_latch_owned : forall c s,
 Proof. exact latch_owned. Qed.
 Print Assumptions C29_completion_latch_owned.
 
-(* ---------- REPAIRED in /repo f2764c3 (was: FALSE, an exception leaves pipeline() through execute() while generator tasks still
+(* ---------- REPAIRED in /repo eb2d079 (was: FALSE, an exception leaves pipeline() through execute() while generator tasks still
    reference the pipes).  The generator functor records its exception in the task set itself.  Regression: the former witness
    (poolLoadFactor_ 0, instance run inline inside execute(), generator throws) returns with exception 0, pool empty. ---------- *)
 Example C29_escape_regression :
